@@ -128,7 +128,16 @@ pub fn check_visual(
                 _ => return out,
             };
             if sps.len() > 65_535 || pps.len() > 65_535 {
-                obs.count("delegated_to_C16(parameter set > 65535 bytes)", 1);
+                if first_key.is_some() {
+                    // the frame was accepted although its first SPS/PPS cannot be carried by a
+                    // 16-bit length: whatever the record holds, it is not that parameter set
+                    out.push(v(
+                        format!("{}|avcC.oversized-first-set-accepted", where_),
+                        format!("first SPS/PPS of the accepted keyframe are {} / {} bytes (> 65535); avcC holds SPS {} PPS {}", sps.len(), pps.len(), c.sps.first().map(|s| crate::util::hex_short(s)).unwrap_or_default(), c.pps.first().map(|s| crate::util::hex_short(s)).unwrap_or_default()),
+                    ));
+                    return out;
+                }
+                obs.count("delegated_to_C16(supplied parameter set > 65535 bytes)", 1);
                 return out;
             }
             if c.sps.len() != 1 || c.sps[0] != sps {
@@ -167,7 +176,14 @@ pub fn check_visual(
                 _ => return out,
             };
             if want.iter().any(|(_, n)| n.len() > 65_535) {
-                obs.count("delegated_to_C16(parameter set > 65535 bytes)", 1);
+                if first_key.is_some() {
+                    out.push(v(
+                        format!("{}|hvcC.oversized-first-set-accepted", where_),
+                        format!("first VPS/SPS/PPS of the accepted keyframe are {:?} bytes (one > 65535); the record cannot carry it", want.iter().map(|(_, n)| n.len()).collect::<Vec<_>>()),
+                    ));
+                    return out;
+                }
+                obs.count("delegated_to_C16(supplied parameter set > 65535 bytes)", 1);
                 return out;
             }
             for (t, nal) in &want {
